@@ -34,6 +34,7 @@ import (
 	"github.com/talostrading/sonic"
 	"github.com/talostrading/sonic/sonicerrors"
 	"github.com/talostrading/sonic/sonicopts"
+	"github.com/talostrading/sonic/util"
 )
 
 type Stream struct {
@@ -648,6 +649,9 @@ func (s *Stream) prepareWrite(f *Frame) {
 	if s.role == RoleClient {
 		f.MaskPayload()
 	}
+	// The whole slice is written to the wire. A frame whose payload was never set, in particular a recycled one, is
+	// longer than its header and declared payload; cut it so that no stale bytes follow the frame.
+	*f = util.ExtendSlice(*f, f.payloadOffset()+f.PayloadLength())
 	s.pendingFrames = append(s.pendingFrames, f)
 }
 
